@@ -89,6 +89,20 @@ CHECKS["C11"] = (
     "findings are listed in known_findings.txt and replayed deterministically; everything else must be clean.",
     LEVEL_NOTE_COMMON + "Embedded signed objects and the other classes' rule tables are decided by the oracle on the real code.",
     "DESIGN.md §6 C11")
+CHECKS["C12"] = (
+    "Rocq proof (per-dimension compatibility over tables regenerated from both halves, characterisation of the completing cells of the whole configuration product, view projections) + vm_compute correspondence on real RP<->OP flows + completion/view oracle",
+    "Theorems (Props/C12.v, 26, closed) over Model/Interop.v and Gen/Supports.v (both halves' _supports, authn-method and PKCE tables, "
+    "signing/encryption key families, regenerated from /repo/src on every run): every value the RP can be configured with is, after "
+    "negotiation, accepted by the provider's code, for all eleven dimensions (C12_dimension_compatible); for every cell of the ~4.7e9 "
+    "product and every input the flow completes iff none of nine named limits applies (C12_product_char, by factoring into eight "
+    "independent groups, never enumerated); each limit has a witness cell (C12_refuted_*), replayed against the real code on every "
+    "run and listed in known_findings.txt (11 keys); the views of a completed flow are projections of one session record "
+    "(C12_views_agree, _partial for response type id_token). Correspondence: discovery, registration, authorization via plain / "
+    "request / request_uri / PAR, token, userinfo, introspection and refresh between the real client and the real provider, outcome "
+    "and every view compared with the model.",
+    LEVEL_NOTE_COMMON + "Real cryptography of each algorithm pair is exercised by the flows, not proved (partial). Dynamic "
+    "registration and request-object algorithms other than RS256 are not modelled.",
+    "DESIGN.md §6 C12")
 CHECKS["C16"] = (
     "Rocq proof (request-object authentication over three transports, PAR store machine by induction over op lists, Dolev-Yao) + vm_compute correspondence on the real authorization and PAR endpoints + generator-ground-truth oracle",
     "Theorems (Props/C16.v, 11, closed) over Model/Jar.v: an accepted request with a verified object belongs to the identified client, uses "
